@@ -13,15 +13,19 @@
 //        (any other kind: the custom, UNTYPED notifier 6, whose return value means valid / invalid)
 //   impl?/dflt? : 0 | 1 len bytes
 //   op  1 hasExcl [nExcl ids..] nPairs { optId len bytes }*  |  2 (assignDefaults)  |  3 (fresh ParsedOptions)
-//       4 k ids..   parsed.add("o<id>") for each id - any name: an option of the context or a FOREIGN name (id >= nopts); no observation
+//       4 k ids..   parsed.add(name of id) for each id - any name: an option of the context or a FOREIGN name (id >= nopts); no observation
 //       5 nPairs { optId len bytes }*   parsed.assign(source of a SECOND OptionContext) on the SAME ParsedOptions object: the second context
 //         ("one ParsedOptions shared by two contexts reading the same command line") holds 6 plain std::string options o<nopts>..o<nopts+5>;
 //         pairs naming other ids are dropped. Afterwards the ParsedOptions holds names that are not options of the first context.
+//       7 hasExcl [nExcl ids..] nPairs { 0 optId len bytes | 1 klen key.. len bytes }*   as op 1, but every pair is added either through the
+//         option pointer (0) or BY NAME (1): ParsedValues::add(const std::string& name, const std::string& value) with an arbitrary key -
+//         an exact name, a strict prefix of one / several names, an extension of a name, an alias character, "-a", unknown, empty.
+//         Option names: id 0..3 = limit (alias l), level, length, lim (alias m); any other id = o<id>.
 //       6   NEW RUN: the option group, the context and every Value object of the first context are destroyed and built again from the same
 //         descriptors (fresh `storeTo(x)` / `store<T>(vm)` / `flag(vm)` / `notify(..)` values: state unassigned), and a fresh ParsedOptions
 //         is used; what SURVIVES is what the application keeps for the results: the bound variables, the ValueMap, the notifier's log.
 //         ("an application re-reads its configuration: new option set for every run, one ValueMap for the results"); no observation
-// Observation per op 1/2/5: err(0 | 1+type key len bytes) fault(0) parsed.size { state count varLen var.. }*
+// Observation per op 1/2/5/7: err(0 | 1+type key len bytes) fault(0) parsed.size { state count varLen var.. }*
 //   var of a typed notifier (kinds 10..19):  made libFreed ctxFreed held clen content..  { len elems.. }*  where made = objects the library
 //   created for this option, libFreed = objects the library deleted itself (declined ones, and those of refused strings), ctxFreed = objects
 //   the context deleted when it was handed a newer one, held = the context owns an object (content), then the log: EVERY delivered value in
@@ -115,7 +119,14 @@ struct Target {
 	std::string impl, dflt; bool hasImpl, hasDflt;
 	Target() : kind(0), comp(false), b(false), i(-777), hasImpl(false), hasDflt(false) {}
 };
-static std::string optName(ll id) { return "o" + std::to_string(id); }
+// option NAMES (coq/C15/Model.v opt_name / opt_alias): names in a prefix relation for the first ids, two of them with an alias character
+static std::string optName(ll id) {
+	static const char* const first[4] = {"limit", "level", "length", "lim"};
+	return (id >= 0 && id < 4) ? std::string(first[id]) : "o" + std::to_string(id);
+}
+static char optAlias(ll id) { return id == 0 ? 'l' : id == 3 ? 'm' : 0; }
+// the key handed to OptionInitHelper: "name" or "name,a"
+static std::string optKey(ll id) { std::string k = optName(id); if (optAlias(id)) { k += ','; k += optAlias(id); } return k; }
 
 struct OptSet {
 	std::unique_ptr<Po::OptionGroup>   g;
@@ -162,7 +173,7 @@ struct OptSet {
 					if (pm[j] == 2 && t.hasDflt) v->defaultsTo(t.dflt.c_str());
 				}
 			}
-			g->addOptions()(optName((ll)k).c_str(), v, "");
+			g->addOptions()(optKey((ll)k).c_str(), v, "");
 		}
 		ctx->add(*g);
 	}
@@ -201,13 +212,18 @@ int main() {
 		while (c.more()) {
 			ll op = c.next();
 			int et = 0; std::string ek, ev;
-			if (op == 1) {
+			if (op == 1 || op == 7) {
 				bool hasEx = c.next() != 0;
 				Po::ParsedOptions ex;
 				if (hasEx) { size_t ne = (size_t)c.next(); for (size_t k = 0; k != ne; ++k) ex.add(optName(c.next())); }
 				size_t np = (size_t)c.next();
 				Po::ParsedValues pv(*os.ctx);
 				for (size_t k = 0; k != np; ++k) {
+					if (op == 7 && c.next() != 0) {           // BY NAME: any key; what it denotes is the library's business
+						std::string key = c.bytes((size_t)c.next()); std::string val = c.bytes((size_t)c.next());
+						pv.add(key, val);
+						continue;
+					}
 					size_t id = (size_t)c.next(); std::string val = c.bytes((size_t)c.next());
 					if (id < n) pv.add(*(os.ctx->begin() + id), val);
 				}
